@@ -55,6 +55,9 @@ def collect(chk, outs, props, marker="HReset"):
         nb += len(o["job"]["behaviours"])
         ne += o["result"]["events"]
         for v in o["result"]["viol"]:
+            if v["p"] == "DRIFT":       # implementation-shaped layer disagrees with the code: reported, never a violation
+                chk.drift.append("%s %s %s" % (o["job"]["name"], v["what"], json.dumps(v["info"])[:300]))
+                continue
             if v["p"] not in props and v["p"] != "FAULT":
                 chk.other[v["p"]] = chk.other.get(v["p"], 0) + 1
                 continue
@@ -391,9 +394,9 @@ def check_c15(tier, seed, replay=None, selftest=False):
     for ai, alg in enumerate(gen_hash.FAMS):
         fams = gen_hash.FAMS[alg]
         if tier == "quick":
-            # the 2^29 crossing on every family; the 2^32 crossing on two rotating families + the dispatched entry
-            r32 = [fams[(seed + ai) % len(fams)], fams[(seed + ai + 3) % len(fams)], "isal"]
-            plan = [(f, 29) for f in fams + ["isal"]] + [(f, 32) for f in dict.fromkeys(r32)]
+            # both crossings on every family and the dispatched entry (the padding code is per family: a rotation would miss
+            # a family-local truncation of the length field)
+            plan = [(f, x) for f in fams + ["isal"] for x in (29, 32)]
         else:
             plan = [(f, x) for f in fams + ["isal", "legacy"] for x in (29, 32)] + [(fams[(seed + ai) % len(fams)], 33), ("isal", 33)]
         for fam, crossing in plan:
@@ -403,8 +406,8 @@ def check_c15(tier, seed, replay=None, selftest=False):
     _finish_traces(chk, jobs, outs, nb, ne,
                    "one behaviour = one stream whose running total crosses 2^29, 2^32 (incl. a single 2^32-1 byte submit) or 2^32+2^29 at "
                    "residues {0,1,B-P-1,B-P,B-1}; the caller's buffer is a 4 GiB virtual window repeating a 1 MiB pattern; TLC checks the "
-                   "reported total_length (pair arithmetic) and the digest (streaming primitive over the same segments); quick rotates one "
-                   "family per algorithm with the seed + the dispatched entry, thorough runs all 28 families")
+                   "reported total_length (pair arithmetic) and the digest (streaming primitive over the same segments); both crossings run "
+                   "on all 28 families + the dispatched entry in both tiers; thorough adds the legacy entry points and 2^32+2^29")
     chk.cov["distinct_nontrivial"] = len(jobs)
     chk.assumptions += ["digest of >2^29-byte streams computed by Prim!DigestOfSegs (JDK MessageDigest / own SM3), cross-checked against the "
                         "TLA+ definition HashStd!Digest on short streams at setup", "periodic pattern data (period 2^20)"]
@@ -589,10 +592,6 @@ def check_c17(tier, seed, replay=None, selftest=False):
             for i in range(nj)]
     outs = run_jobs(jobs, exe, "TraceSelfTest")
     nb, ne = collect(chk, outs, props | {"SPEC"}, marker="Mark")
-    for o in outs:
-        for v in o["result"]["viol"]:
-            if v["p"] == "DRIFT":
-                chk.drift.append("%s %s" % (v["what"], json.dumps(v["info"])[:160]))
     _finish_traces(chk, jobs, outs, nb, ne,
                    "one behaviour = N (2..4) threads x 1..2 calls of isal_self_tests()/isal_aes_keyexp_128() executed under a schedule that "
                    "says which thread performs its next access to the status word (instruction-granular control through the trap flag, no "
@@ -630,10 +629,6 @@ def check_c12(tier, seed, replay=None, selftest=False):
     jobs = [{"name": "disp-%d" % i, "behaviours": beh[i::nj], "driver": "disp"} for i in range(nj)]
     outs = run_jobs(jobs, exe, "TraceDispatch")
     nb, ne = collect(chk, outs, props | {"SPEC"}, marker="Mark")
-    for o in outs:
-        for v in o["result"]["viol"]:
-            if v["p"] == "DRIFT":
-                chk.drift.append("%s %s" % (v["what"], json.dumps(v["info"])[:300]))
     dispatch_model(chk, exe, tier)
     isa_part(chk, exe, tier)
     _finish_traces(chk, jobs, outs, nb, ne,
@@ -963,6 +958,12 @@ def check_c18(tier, seed, replay=None, selftest=False):
     exe_all = build.build_driver("all", ALL_SRCS, wraps=MH_WRAPS)
     if replay:
         return machine_check("C18", tier, seed, replay, {"C18"}, "replay")
+    # (o) design model of the only legitimate shared write: racing first calls bind correctly iff the slot is published by one store
+    model_check(chk, [("BindRace", "BindRace.cfg", 4, 300)])
+    rc_t, out_t, _ = verif.tlc("BindRace", cfg="BindRace_torn.cfg", workers=2, timeout=300)
+    if "Invariant NoTornJump is violated" not in out_t:
+        raise verif.MachineryError("BindRace_torn must violate NoTornJump (model is vacuous otherwise):\n" + out_t[-1500:])
+    chk.cov["bind_race_model"] = "BindRace: 3 threads, one-store publication: NoTornJump, BoundAtEnd, SlotMonotone, AllReturn hold; two-store variant violates NoTornJump (non-vacuity)"
     # (i) every event of the single-threaded mix: writable statics change only by a first-call binding
     mix = machine_mix(seed * 31 + 18, tier, small=True)
     dexe = build.build_driver("disp", DISP_SRCS)
@@ -1039,10 +1040,10 @@ def lane_env(alg, fam, maxn):
             "SBTHR": str(SB_THRESHOLD.get((alg, fam), 1))}
 
 
-def tlc_hash_behaviours(nlanes, num, seed):
+def tlc_hash_behaviours(nlanes, num, seed, depth=26):
     """behaviours drawn by TLC's simulator from HashImplSim: list of [(kind, ctx, flags, toy length, predicted return)]"""
     rc, out, dt = verif.tlc("HashImplSim", cfg="HashImplSim_%d.cfg" % nlanes, workers=4, timeout=300,
-                            simulate="num=%d" % num, extra=["-depth", "26", "-seed", str(seed)])
+                            simulate="num=%d" % num, extra=["-depth", str(depth), "-seed", str(seed)])
     res = []
     for line in out.splitlines():
         if line.startswith("\"BEH "):
@@ -1065,9 +1066,12 @@ def lane_level(chk, exe, tier, seed):
     jobs = []
     nsim = 6 if tier == "quick" else 150
     for nl, combos in ((2, [("sha512", "sse"), ("sha512", "avx"), ("sha1", "sse_ni"), ("sha256", "sse_ni")]),
-                       (4, [("sha1", "sse"), ("sha256", "avx"), ("sha512", "avx2"), ("sha1", "avx")])):
-        hs = tlc_hash_behaviours(nl, nsim, seed)
-        nctx = 3 if nl == 2 else 5
+                       (4, [("sha1", "sse"), ("sha256", "avx"), ("sha512", "avx2"), ("sha1", "avx")]),
+                       (8, [("sha1", "avx2"), ("sha256", "avx2"), ("md5", "sse"), ("sha512", "avx512"), ("sm3", "avx2")])):
+        hs = tlc_hash_behaviours(nl, nsim if nl < 8 else max(2, nsim // 3), seed, depth=26 if nl < 8 else 58)
+        if nl == 8:
+            hs = [h for h in hs if len(h) == 58] or hs      # the simulator prints every prefix from 56 on; keep the full ones
+        nctx = {2: 3, 4: 5, 8: 9}[nl]
         for alg, fam in combos:
             bs = []
             for h in hs:
@@ -1078,7 +1082,7 @@ def lane_level(chk, exe, tier, seed):
                         b.append("hsub %d %d %d %d %d e" % (c, f, bid + c, rng.randrange(1 << 18), toy_to_real(n, alg)))
                     else:
                         b.append("hflush")
-                b += ["hdrain 10", "hend"]
+                b += ["hdrain %d" % (nl + 6), "hend"]
                 bs.append(b)
             if bs:
                 j = hash_job("lane-sim-%s-%s" % (alg, fam), bs)
